@@ -1,5 +1,6 @@
 import Blue.Generated.Consts
 import Blue.Model.SstBuild
+import Blue.Model.Sbbf
 import Blue.Proofs.Wire
 /-! Constants of the sst crate regenerated from the Rust source, tied to the block / table model
     (C10).  Kept apart from the other properties' ties so that an edit to these constants breaks
@@ -51,5 +52,46 @@ theorem sst_defaults_in_domain :
     1 ≤ Blue.Generated.blockDefaultBytesRestartInterval ∧ 1 ≤ Blue.Generated.blockDefaultPairsRestartInterval
     ∧ Blue.Generated.sstClampMinTargetBlockSize ≤ Blue.Generated.sstDefaultTargetBlockSize
     ∧ Blue.Generated.sstDefaultTargetBlockSize ≤ Blue.Generated.sstClampMaxTargetBlockSize := by decide
+
+/-! ### the split-block bloom filter (sst/src/sbbf.rs) -/
+/-- the salts of `Block::mask`, in order -/
+theorem sbbf_salt : Blue.Sbbf.SALT.toList = Blue.Generated.sbbfSalt := by decide
+
+/-- `struct Block { block: [u32; 8] }` and the loops `for i in 0..8` of `mask`, `insert`, `check`,
+    `Block::try_from` -/
+theorem sbbf_block_words :
+    List.replicate 5 Blue.Sbbf.BLOCK_WORDS = Blue.Generated.sbbfBlockWords
+    ∧ Blue.Sbbf.SALT.toList.length = Blue.Sbbf.BLOCK_WORDS := by decide
+
+/-- `result.block[i] |= 1 << (y >> 27)` with `y = (x as u64 * SALT[i] as u64) as u32` (the shape of
+    the statement is the extractor's pattern), and the model's `maskWord` is that expression -/
+theorem sbbf_mask :
+    [1, Blue.Sbbf.MASK_SHIFT] = Blue.Generated.sbbfMask
+    ∧ ∀ x salt, Blue.Sbbf.maskWord x salt = (1#32) <<< ((x * salt) % 2 ^ 32 / 2 ^ Blue.Sbbf.MASK_SHIFT) := by
+  exact ⟨by decide, fun _ _ => rfl⟩
+
+/-- `Block::insert` ORs the words of `Block::mask(x)` in; `Block::check` tests
+    `self.block[i] & mask.block[i] != mask.block[i]` against the same `Block::mask(x)` (the shapes
+    are the extractor's patterns: present = 1, anything else leaves the constant undefined) -/
+theorem sbbf_insert_check_shape : Blue.Generated.sbbfInsertOrCheckAnd = 1 := by decide
+
+/-- `((size.saturating_add(7) >> 3) >> 5) + 1` -/
+theorem sbbf_new_size :
+    [Blue.Sbbf.NEW_ROUND_UP, Blue.Sbbf.NEW_SHIFT_BYTES, Blue.Sbbf.NEW_SHIFT_BLOCKS, Blue.Sbbf.NEW_EXTRA_BLOCKS]
+      = Blue.Generated.sbbfNewSize := by decide
+
+/-- `(((x >> 32) * len) >> 32) as usize`, `x as u32` -/
+theorem sbbf_hash_shifts :
+    [Blue.Sbbf.HASH_SHIFT, Blue.Sbbf.HASH_SHIFT] = Blue.Generated.sbbfHashShifts
+    ∧ Blue.Sbbf.U32 = 2 ^ Blue.Sbbf.HASH_SHIFT ∧ Blue.Sbbf.U64 = Blue.Sbbf.U32 * Blue.Sbbf.U32 := by decide
+
+/-- the byte layout: `Block::try_from` (`len != 32`, `idx = i * 4`, `idx + 4`), `Filter::try_from`
+    (`is_multiple_of(32)`, `len / 32`, `idx * 32`, `idx + 32`), words written by `to_le_bytes` -/
+theorem sbbf_byte_layout :
+    [Blue.Sbbf.BLOCK_BYTES, Blue.Sbbf.WORD_BYTES, Blue.Sbbf.WORD_BYTES, Blue.Sbbf.BLOCK_BYTES, Blue.Sbbf.BLOCK_BYTES,
+      Blue.Sbbf.BLOCK_BYTES, Blue.Sbbf.BLOCK_BYTES] = Blue.Generated.sbbfByteLayout
+    ∧ Blue.Sbbf.BLOCK_BYTES = Blue.Sbbf.BLOCK_WORDS * Blue.Sbbf.WORD_BYTES
+    ∧ (∀ w : Blue.Sbbf.Word, (Blue.Sbbf.le4 w).length = Blue.Sbbf.WORD_BYTES) := by
+  exact ⟨by decide, by decide, fun _ => rfl⟩
 
 end Blue.ConstsTie
